@@ -228,6 +228,9 @@ def worldLine (st : WState) (line : String) : WState × List String :=
              ({ st with monDead := true, mons := st.mons + 1 },
               [s!"MON {why.take 3} case={st.caseId} line={st.lineNo} {why} op=[dump] impl=[{r}]"])
          (st, out1 ++ out2))
+    | ["lazy_panic"], _ =>
+      -- a panicking lazy action ends the comparison of this case (outside the model; see the harness): every monitor off
+      ({ st with diverged := true, monDead := true, lgDead := true, evDead := true, c01Dead := true, caseNontrivial := true }, [])
     | ["entry_far", _k, v], rts =>
       -- probe outside the model (C08): `entry_inner(2^24+1).or_insert(v)`; the mask refuses the index, the value handed
       -- over must be destroyed exactly once all the same (unwind guard of the insertion). Ledger bookkeeping only.
